@@ -137,7 +137,39 @@ def resolution_positive(ctx, fi, pm, rule):
              'back with negative tempo times and a negative ticks_per_quarter instead of MIDIConversionError' % (why, obj), construct=cons, definite=True)
 
 
+def handlers_cannot_raise_another_class(ctx, rule='ESC/handler-decodes-bytes'):
+  """Location-independent: what an `except` arm does before it raises MIDIConversionError runs outside every try of its own function -
+  an exception raised *there* leaves as itself.  The input is arbitrary bytes, so `<bytes>.decode()` without an `errors=` argument (to
+  quote the first bytes of the input in the message, say) raises UnicodeDecodeError for input that is not valid text.  Every handler
+  of midi_io (helpers included) is read; a strict `.decode(...)` in a handler that is not itself inside a try body is the violation."""
+  mi = ctx.P.module('midi_io')
+  n = 0
+  for q, fi in sorted(mi.all_functions.items()):
+    pm_ = U.parents(fi.node)
+    for h in ast.walk(fi.node):
+      if not isinstance(h, ast.ExceptHandler):
+        continue
+      n += 1
+      bad = []
+      for c in ast.walk(ast.Module(body=h.body, type_ignores=[])):
+        if isinstance(c, ast.Call) and isinstance(c.func, ast.Attribute) and c.func.attr == 'decode' and len(c.args) < 2 and not any(k.arg == 'errors' for k in c.keywords):
+          # is the call inside a try body nested in the handler?
+          cur, inner = pm_.get(id(c)), False
+          while cur is not None and cur is not h:
+            if isinstance(cur, ast.Try):
+              inner = True
+            cur = pm_.get(id(cur))
+          if not inner:
+            bad.append(c)
+      cons = '%s: the handler at line %d raises nothing but the conversion error' % (q, h.lineno)
+      ctx.ob(rule, fi, bad[0] if bad else h, not bad, 'no strict bytes.decode() in the handler' if not bad else
+             '`%s` in the except arm decodes input bytes strictly: for data that is not valid text (first bytes \\x80..., \\xff\\xfe) it raises UnicodeDecodeError, which leaves %s instead of '
+             'MIDIConversionError' % (norm_text(bad[0])[:50], q), construct=cons, definite=True)
+  ctx.require(n >= 1, 'midi_io: no except handler found')
+
+
 def run(ctx):
+  handlers_cannot_raise_another_class(ctx)
   pm = pmfacts.PMFacts()
   for t, tab in ATTR_TYPES.items():
     cls = PM_CLASS[t]
@@ -388,3 +420,4 @@ EXPLANATION += (' Round 7: ' + 'WELLFORMED/resolution-positive follows the helpe
 EXPLANATION += (' Rounds 9-10: ' + 'the escape engine models str.encode / bytes.decode (literal codec and handler; clean, possibly-surrogate and UTF-8 text types): a possibly-surrogate string stored into a string field raises UnicodeEncodeError; exception translation by a context-manager class is cannot-classify.')
 EXPLANATION += (' Round 12: ' + 'in-memory buffering of the file is file access (ESC/wrapper).')
 EXPLANATION += (' Round 13: ' + "block-wise reading (append, b''.join) is file access.")
+EXPLANATION += (' Round 14: ' + 'ESC/handler-decodes-bytes (a strict bytes.decode() in an except arm).')
